@@ -906,6 +906,7 @@ def run(rep, tier, seed, only=None):
                      "TruthTableModel.define, PyFunctionModel.define", "PyFunction.from_int_unary_func/from_int_binary_func"]
     rep.bounds = {"table shapes (inputs x outputs)": "quick: 1x1, 2x1, 2x2, 3x1; thorough adds 1x2, 3x2", "queries": "every protocol query with every index argument; negation search for output subsets [0],[1],[0,1],[1,0]",
                   "model completion": "n<=2, m<=2, don't-care masks of size <=3 (sampled), symbolic defined values and definitions", "integer wrappers": "6 functions, input length <=3 (binary <=2), both endiannesses"}
+    rep.bounds['model kept'] = 'TruthTableModel completed twice (complement first): own table and check_at still show exactly the dont-cares, an incomplete definition is still refused, second completion exact'
     rep.outside = ["tables with more than 3 inputs or 2 outputs", "TruthTable/TruthTableModel constructors' own validation of entries (the state is constructed directly)"]
     rep.rule = "case = (shape, representation, query); all tables of the shape are covered by the explored paths (coverage proven by z3)"
     rep.explanation = ("the table is symbolic; each query runs on each representation, forking only where the real code compares table entries; per path z3 decides answer == definition; "
